@@ -573,25 +573,21 @@ theorem fetchChunk_keeps {E : Env} {u : Under} (c : Cache) (id k : ChunkId) (h :
 /-- a successful `fetchChunk` leaves the chunk in the cache -/
 theorem fetchChunk_stores {E : Env} {u : Under} (c : Cache) (id : ChunkId) (b : Bytes)
     (h : (fetchChunk E u c id).2 = some b) : (fetchChunk E u c id).1 id ≠ none := by
-  unfold fetchChunk at *
   cases hco : E.co id with
-  | none => simp [hco] at h
+  | none => simp [fetchChunk, hco] at h
   | some others =>
-    simp only [hco] at h ⊢
     rcases hps : preStore E u c others with ⟨c1, ok⟩
-    rw [hps] at h ⊢
     cases ok with
-    | false => simp at h
+    | false => simp [fetchChunk, hco, hps] at h
     | true =>
-      simp only [] at h ⊢
       cases hui : u id with
-      | none => simp [hui] at h
+      | none => simp [fetchChunk, hco, hps, hui] at h
       | some b0 =>
-        simp only [hui] at h ⊢
         by_cases hv : b0.length = id.size ∧ E.verify id b0 = true
-        · simp only [hv, and_self, if_true] at h ⊢
+        · simp only [fetchChunk, hco, hps, hui, if_pos hv]
           simp [Cache.put]
-        · simp [hv] at h
+        · simp only [fetchChunk, hco, hps, hui, if_neg hv] at h
+          cases h
 
 /-- Position `y` is not strictly inside any chunk. -/
 def NotInside (t : List Chunk) (y : Nat) : Prop := ∀ c ∈ t, ¬ (c.off < y ∧ y < c.off + c.size)
@@ -659,28 +655,23 @@ theorem readLoop_exact {content : Nat → Bytes} {E : Env} {u : Under} {f : File
           · obtain ⟨c0, hc0, _⟩ := hl.1 hx; rw [hlk] at hc0; cases hc0
           · omega
         rw [hacc]
-        simp only [slice_length]
-        have hcov := hf.cover
-        rw [show min acc.length ((content f.id).length - off) = min acc.length ((content f.id).length - off) from rfl]
-        have hlen : acc.length = min acc.length ((content f.id).length - off) := by
-          have := congrArg List.length hacc; simpa using this
-        rw [← hlen]
-        exact slice_all_of_short _ _ _ _ (by omega) hle
+        exact slice_all_of_short _ _ _ _ (by have := hf.cover; omega) hle
       | some ch =>
         simp only []
         have hx : off + acc.length < total f.table := by
           by_cases hx : off + acc.length < total f.table
           · exact hx
           · have := hl.2 (by omega); rw [hlk] at this; cases this
-        obtain ⟨c0, hc0, hmem, hb1, hb2⟩ := hl.1 hx
-        rw [hlk] at hc0; cases hc0
+        have hch : ch ∈ f.table ∧ ch.off ≤ off + acc.length ∧ off + acc.length < ch.off + ch.size := by
+          obtain ⟨c0, hc0, hmem, hb1, hb2⟩ := hl.1 hx
+          rw [hlk] at hc0; cases hc0; exact ⟨hmem, hb1, hb2⟩
+        obtain ⟨hmem, hb1, hb2⟩ := hch
         have hinv' : acc.length = 0 ∨ NotInside f.table (off + acc.length) := by
           rcases hinv with h | h | h
           · exact Or.inl h
           · omega
           · exact Or.inr h
         have hr := round_facts hf off n acc.length hlt hinv' ch hmem hb1 hb2
-        simp only [] at hr
         obtain ⟨hstart, hfit, hnext, hpos, _⟩ := hr
         by_cases hg : ch.size = 0 ∨ ch.size - (ch.off + ch.size - (off + n)) - (off - ch.off) = 0 ∨
             ch.size - (ch.off + ch.size - (off + n)) - (off - ch.off) > n - acc.length
@@ -734,16 +725,16 @@ theorem readLoop_exact {content : Nat → Bytes} {E : Env} {u : Under} {f : File
                 · simp only [hz, and_self, if_true]
                   have hs : b = slice (trueChunk content ⟨f.id, ch.off, ch.size⟩) (off - ch.off)
                       (ch.size - (ch.off + ch.size - (off + n)) - (off - ch.off)) := by
-                    rw [hz.1, hz.2, ← hbt]; unfold slice; simp [hbl]
+                    rw [hz.1, hz.2, ← hbt]; simp [slice, ← hbl]
                   obtain ⟨a1, a2, a3⟩ := happ b hs (by rw [hbl, hz.1, hz.2]; simp)
                   exact ih c1 _ hfc.1 a1 a2 a3
                 · simp only [hz, if_false]
-                  by_cases hsl : (slice b (off - ch.off) (ch.size - (ch.off + ch.size - (off + n)) - (off - ch.off))).length ≠
+                  by_cases hsl : (slice b (off - ch.off) (ch.size - (ch.off + ch.size - (off + n)) - (off - ch.off))).length =
                       ch.size - (ch.off + ch.size - (off + n)) - (off - ch.off)
-                  · simp only [hsl, if_true]; exact ⟨hfc.1, by intro b hb; cases hb⟩
-                  · simp only [hsl, if_false]
-                    obtain ⟨a1, a2, a3⟩ := happ _ (by rw [hbt]) (by simpa using hsl)
+                  · rw [if_neg (not_not_intro hsl)]
+                    obtain ⟨a1, a2, a3⟩ := happ _ (by rw [hbt]) hsl
                     exact ih c1 _ hfc.1 a1 a2 a3
+                  · rw [if_pos hsl]; exact ⟨hfc.1, by intro b hb; cases hb⟩
           | none =>
             simp only []
             have hfc := fetchChunk_ok hu c ⟨f.id, ch.off, ch.size⟩ hc
@@ -759,20 +750,502 @@ theorem readLoop_exact {content : Nat → Bytes} {E : Env} {u : Under} {f : File
               · simp only [hz, and_self, if_true]
                 have hs : b = slice (trueChunk content ⟨f.id, ch.off, ch.size⟩) (off - ch.off)
                     (ch.size - (ch.off + ch.size - (off + n)) - (off - ch.off)) := by
-                  rw [hz.1, hz.2, ← hbt]; unfold slice; simp [hbl]
+                  rw [hz.1, hz.2, ← hbt]; simp [slice, ← hbl]
                 obtain ⟨a1, a2, a3⟩ := happ b hs (by rw [hbl, hz.1, hz.2]; simp)
                 exact ih c1 _ hfc.1 a1 a2 a3
               · simp only [hz, if_false]
-                by_cases hsl : (slice b (off - ch.off) (ch.size - (ch.off + ch.size - (off + n)) - (off - ch.off))).length ≠
+                by_cases hsl : (slice b (off - ch.off) (ch.size - (ch.off + ch.size - (off + n)) - (off - ch.off))).length =
                     ch.size - (ch.off + ch.size - (off + n)) - (off - ch.off)
-                · simp only [hsl, if_true]; exact ⟨hfc.1, by intro b hb; cases hb⟩
-                · simp only [hsl, if_false]
-                  obtain ⟨a1, a2, a3⟩ := happ _ (by rw [hbt]) (by simpa using hsl)
+                · rw [if_neg (not_not_intro hsl)]
+                  obtain ⟨a1, a2, a3⟩ := happ _ (by rw [hbt]) hsl
                   exact ih c1 _ hfc.1 a1 a2 a3
+                · rw [if_pos hsl]; exact ⟨hfc.1, by intro b hb; cases hb⟩
     · simp only [hlt, if_false]
       refine ⟨hc, ?_⟩
       intro b hb; cases hb
       have : acc.length = n := by omega
       rw [← this]; exact hacc
+
+
+theorem fetchChunk_len {E : Env} {u : Under} (c : Cache) (id : ChunkId) (b : Bytes)
+    (h : (fetchChunk E u c id).2 = some b) : b.length = id.size := by
+  cases hco : E.co id with
+  | none => simp [fetchChunk, hco] at h
+  | some others =>
+    rcases hps : preStore E u c others with ⟨c1, ok⟩
+    cases ok with
+    | false => simp [fetchChunk, hco, hps] at h
+    | true =>
+      cases hui : u id with
+      | none => simp [fetchChunk, hco, hps, hui] at h
+      | some b0 =>
+        by_cases hv : b0.length = id.size ∧ E.verify id b0 = true
+        · simp only [fetchChunk, hco, hps, hui, if_pos hv] at h
+          cases h; exact hv.1
+        · simp only [fetchChunk, hco, hps, hui, if_neg hv] at h
+          cases h
+
+/-- The Go loop terminates: every round appends at least one byte, so `n + 1` rounds suffice for
+ANY chunk table, cache and lower layer (no hypothesis). -/
+theorem readLoop_ne_diverge (E : Env) (u : Under) (f : FileInfo) (off n : Nat) :
+    ∀ (fuel : Nat) (c : Cache) (acc : Bytes), n - acc.length < fuel →
+      (readLoop E u f off n fuel c acc).2 ≠ .diverge := by
+  intro fuel
+  induction fuel with
+  | zero => intro c acc h; omega
+  | succ fuel ih =>
+    intro c acc hfuel
+    unfold readLoop
+    simp only []
+    by_cases hlt : acc.length < n
+    · simp only [hlt, if_true]
+      cases hlk : chunkEntryForOffset f.variant f.table (off + acc.length) with
+      | none => simp
+      | some ch =>
+        simp only []
+        by_cases hg : ch.size = 0 ∨ ch.size - (ch.off + ch.size - (off + n)) - (off - ch.off) = 0 ∨
+            ch.size - (ch.off + ch.size - (off + n)) - (off - ch.off) > n - acc.length
+        · simp only [hg, if_true]; simp
+        · simp only [hg, if_false]
+          have hstep : ∀ (c' : Cache) (s : Bytes), 0 < s.length →
+              (readLoop E u f off n fuel c' (acc ++ s)).2 ≠ .diverge := by
+            intro c' s hs
+            apply ih
+            simp; omega
+          have hmiss : (match fetchChunk E u c ⟨f.id, ch.off, ch.size⟩ with
+              | (c1, none) => (c1, Outcome.err)
+              | (c1, some b) =>
+                if off - ch.off = 0 ∧ ch.off + ch.size - (off + n) = 0 then
+                  readLoop E u f off n fuel c1 (acc ++ b)
+                else
+                  if (slice b (off - ch.off) (ch.size - (ch.off + ch.size - (off + n)) - (off - ch.off))).length ≠
+                      ch.size - (ch.off + ch.size - (off + n)) - (off - ch.off) then (c1, Outcome.err)
+                  else readLoop E u f off n fuel c1
+                    (acc ++ slice b (off - ch.off) (ch.size - (ch.off + ch.size - (off + n)) - (off - ch.off)))).2
+              ≠ .diverge := by
+            have hlen := fetchChunk_len (E := E) (u := u) c ⟨f.id, ch.off, ch.size⟩
+            rcases hfe : fetchChunk E u c ⟨f.id, ch.off, ch.size⟩ with ⟨c1, r⟩
+            rw [hfe] at hlen
+            cases r with
+            | none => simp
+            | some b =>
+              simp only []
+              have hbl := hlen b rfl
+              simp only [] at hbl
+              by_cases hz : off - ch.off = 0 ∧ ch.off + ch.size - (off + n) = 0
+              · rw [if_pos hz]; exact hstep c1 b (by omega)
+              · rw [if_neg hz]
+                by_cases hsl : (slice b (off - ch.off) (ch.size - (ch.off + ch.size - (off + n)) - (off - ch.off))).length =
+                    ch.size - (ch.off + ch.size - (off + n)) - (off - ch.off)
+                · rw [if_neg (not_not_intro hsl)]; exact hstep c1 _ (by omega)
+                · rw [if_pos hsl]; simp
+          cases hcid : c ⟨f.id, ch.off, ch.size⟩ with
+          | some d =>
+            simp only []
+            by_cases hfull : (slice d (off - ch.off) (ch.size - (ch.off + ch.size - (off + n)) - (off - ch.off))).length =
+                ch.size - (ch.off + ch.size - (off + n)) - (off - ch.off)
+            · simp only [hfull, if_true]; exact hstep c _ (by omega)
+            · simp only [hfull, if_false]; exact hmiss
+          | none => simp only []; exact hmiss
+    · simp only [hlt, if_false]; simp
+
+theorem fileReadAt_ne_diverge (E : Env) (u : Under) (f : FileInfo) (c : Cache) (off n : Nat) :
+    (fileReadAt E u f c off n).2 ≠ .diverge := by
+  unfold fileReadAt
+  exact readLoop_ne_diverge E u f off n (n + 1) c [] (by simp)
+
+/-- Every chunk of the file is in the cache. -/
+def AllCached (f : FileInfo) (c : Cache) : Prop := ∀ ch ∈ f.table, c ⟨f.id, ch.off, ch.size⟩ ≠ none
+
+/-- With every chunk of the file cached (exactly), the loop never asks the lower layer: for ANY `u`
+(in particular the always-failing one) the read succeeds with the right bytes and leaves the cache
+alone. -/
+theorem readLoop_cached {content : Nat → Bytes} {E : Env} (u : Under) {f : FileInfo}
+    (hf : WF content f) (c : Cache) (hc : CacheExact content c) (hall : AllCached f c) (off n : Nat) :
+    ∀ (fuel : Nat) (acc : Bytes), n - acc.length < fuel →
+      acc = slice (content f.id) off acc.length → acc.length ≤ n →
+      (acc.length = 0 ∨ acc.length = n ∨ NotInside f.table (off + acc.length)) →
+      readLoop E u f off n fuel c acc = (c, .ok (slice (content f.id) off n)) := by
+  intro fuel
+  induction fuel with
+  | zero => intro acc h; omega
+  | succ fuel ih =>
+    intro acc hfuel hacc hle hinv
+    unfold readLoop
+    simp only []
+    by_cases hlt : acc.length < n
+    · simp only [hlt, if_true]
+      have hl := lookup_spec f.variant hf.contig (off + acc.length)
+      cases hlk : chunkEntryForOffset f.variant f.table (off + acc.length) with
+      | none =>
+        simp only []
+        have : total f.table ≤ off + acc.length := by
+          by_cases hx : off + acc.length < total f.table
+          · obtain ⟨c0, hc0, _⟩ := hl.1 hx; rw [hlk] at hc0; cases hc0
+          · omega
+        congr 2
+        rw [hacc]
+        exact slice_all_of_short _ _ _ _ (by have := hf.cover; omega) hle
+      | some ch =>
+        simp only []
+        have hx : off + acc.length < total f.table := by
+          by_cases hx : off + acc.length < total f.table
+          · exact hx
+          · have := hl.2 (by omega); rw [hlk] at this; cases this
+        have hch : ch ∈ f.table ∧ ch.off ≤ off + acc.length ∧ off + acc.length < ch.off + ch.size := by
+          obtain ⟨c0, hc0, hmem, hb1, hb2⟩ := hl.1 hx
+          rw [hlk] at hc0; cases hc0; exact ⟨hmem, hb1, hb2⟩
+        obtain ⟨hmem, hb1, hb2⟩ := hch
+        have hinv' : acc.length = 0 ∨ NotInside f.table (off + acc.length) := by
+          rcases hinv with h | h | h
+          · exact Or.inl h
+          · omega
+          · exact Or.inr h
+        have hr := round_facts hf off n acc.length hlt hinv' ch hmem hb1 hb2
+        obtain ⟨hstart, hfit, hnext, hpos, hup0, hup1⟩ := hr
+        have hbnd := contig_mem_bounds hf.contig ch hmem
+        have hexp : ch.size - (ch.off + ch.size - (off + n)) - (off - ch.off) ≤ n - acc.length := by
+          by_cases h0 : ch.off + ch.size - (off + n) = 0
+          · exact hup0 h0
+          · have := hup1 (by omega); omega
+        have hg : ¬ (ch.size = 0 ∨ ch.size - (ch.off + ch.size - (off + n)) - (off - ch.off) = 0 ∨
+            ch.size - (ch.off + ch.size - (off + n)) - (off - ch.off) > n - acc.length) := by omega
+        simp only [hg, if_false]
+        cases hcid : c ⟨f.id, ch.off, ch.size⟩ with
+        | none => exact absurd hcid (hall ch hmem)
+        | some d =>
+          simp only []
+          have hd := hc _ d hcid
+          have hdl : d.length = ch.size := by rw [hd]; exact trueChunk_length hf ch hmem
+          have hfull : (slice d (off - ch.off) (ch.size - (ch.off + ch.size - (off + n)) - (off - ch.off))).length =
+              ch.size - (ch.off + ch.size - (off + n)) - (off - ch.off) := by
+            simp only [slice_length, hdl]; omega
+          simp only [hfull, if_true]
+          have h1 : slice d (off - ch.off) (ch.size - (ch.off + ch.size - (off + n)) - (off - ch.off)) =
+              slice (content f.id) (off + acc.length)
+                (ch.size - (ch.off + ch.size - (off + n)) - (off - ch.off)) := by
+            rw [hd]; unfold trueChunk; simp only []
+            rw [slice_slice _ _ _ _ _ hfit, hstart]
+          have hl2 : (acc ++ slice d (off - ch.off) (ch.size - (ch.off + ch.size - (off + n)) - (off - ch.off))).length =
+              acc.length + (ch.size - (ch.off + ch.size - (off + n)) - (off - ch.off)) := by
+            simp only [List.length_append, hfull]
+          clear hl
+          apply ih
+          · rw [hl2]; omega
+          · rw [hl2, ← slice_append, ← hacc, ← h1]
+          · rw [hl2]; omega
+          · rw [hl2]
+            rcases hnext hexp with h | h
+            · exact Or.inr (Or.inl h)
+            · exact Or.inr (Or.inr h)
+    · simp only [hlt, if_false]
+      have : acc.length = n := by omega
+      rw [← this, ← hacc]
+
+theorem fileReadAt_cached {content : Nat → Bytes} {E : Env} (u : Under) {f : FileInfo}
+    (hf : WF content f) (c : Cache) (hc : CacheExact content c) (hall : AllCached f c) (off n : Nat) :
+    fileReadAt E u f c off n = (c, .ok (slice (content f.id) off n)) := by
+  unfold fileReadAt
+  exact readLoop_cached u hf c hc hall off n (n + 1) [] (by simp) (by simp [slice]) (by simp) (Or.inl rfl)
+
+theorem fileReadAt_exact {content : Nat → Bytes} {E : Env} {u : Under} {f : FileInfo}
+    (hf : WF content f) (hu : Honest content E u) (c : Cache) (hc : CacheOK content c) (off n : Nat) :
+    CacheOK content (fileReadAt E u f c off n).1 ∧
+      ∀ b, (fileReadAt E u f c off n).2 = .ok b → b = slice (content f.id) off n := by
+  unfold fileReadAt
+  exact readLoop_exact hf hu off n (n + 1) c [] hc (by simp [slice]) (by simp) (Or.inl rfl)
+
+/-! ### prefetch-stores -/
+
+theorem storeChunk_ok {content : Nat → Bytes} {E : Env} {u : Under} (hu : Honest content E u)
+    (c : Cache) (id : ChunkId) (h : CacheOK content c) : CacheOK content (storeChunk E u c id).1 := by
+  unfold storeChunk
+  cases hc : c id with
+  | some d => exact h
+  | none =>
+    simp only []
+    have := (fetchChunk_ok hu c id h).1
+    rcases hfe : fetchChunk E u c id with ⟨c1, r⟩
+    rw [hfe] at this
+    cases r <;> exact this
+
+theorem storeChunk_exact {content : Nat → Bytes} {E : Env} {u : Under} (hu : Honest content E u)
+    (c : Cache) (id : ChunkId) (h : CacheExact content c) : CacheExact content (storeChunk E u c id).1 := by
+  unfold storeChunk
+  cases hc : c id with
+  | some d => exact h
+  | none =>
+    simp only []
+    have := fetchChunk_exact hu c id h
+    rcases hfe : fetchChunk E u c id with ⟨c1, r⟩
+    rw [hfe] at this
+    cases r <;> exact this
+
+theorem storeChunk_keeps {E : Env} {u : Under} (c : Cache) (id k : ChunkId) (h : c k ≠ none) :
+    (storeChunk E u c id).1 k ≠ none := by
+  unfold storeChunk
+  cases hc : c id with
+  | some d => exact h
+  | none =>
+    simp only []
+    have := fetchChunk_keeps (E := E) (u := u) c id k h
+    rcases hfe : fetchChunk E u c id with ⟨c1, r⟩
+    rw [hfe] at this
+    cases r <;> exact this
+
+theorem storeChunk_stores {E : Env} {u : Under} (c : Cache) (id : ChunkId)
+    (h : (storeChunk E u c id).2 = true) : (storeChunk E u c id).1 id ≠ none := by
+  unfold storeChunk at *
+  cases hc : c id with
+  | some d => simp [hc]
+  | none =>
+    simp only [hc] at h ⊢
+    have := fetchChunk_stores (E := E) (u := u) c id
+    rcases hfe : fetchChunk E u c id with ⟨c1, r⟩
+    rw [hfe] at this h
+    cases r with
+    | none => simp at h
+    | some b => exact this b rfl
+
+theorem cacheFileLoop_inv {content : Nat → Bytes} {E : Env} {u : Under} (hu : Honest content E u) (f : FileInfo) :
+    ∀ (fuel nr : Nat) (c : Cache),
+      (CacheOK content c → CacheOK content (cacheFileLoop E u f fuel nr c).1) ∧
+      (CacheExact content c → CacheExact content (cacheFileLoop E u f fuel nr c).1) ∧
+      (∀ k, c k ≠ none → (cacheFileLoop E u f fuel nr c).1 k ≠ none) := by
+  intro fuel
+  induction fuel with
+  | zero => intro nr c; exact ⟨id, id, fun _ h => h⟩
+  | succ fuel ih =>
+    intro nr c
+    unfold cacheFileLoop
+    by_cases hlt : nr < f.size
+    · simp only [hlt, if_true]
+      cases hlk : chunkEntryForOffset f.variant f.table nr with
+      | none => exact ⟨id, id, fun _ h => h⟩
+      | some ch =>
+        simp only []
+        have h1 := storeChunk_ok hu c ⟨f.id, ch.off, ch.size⟩
+        have h2 := storeChunk_exact hu c ⟨f.id, ch.off, ch.size⟩
+        have h3 := storeChunk_keeps (E := E) (u := u) c ⟨f.id, ch.off, ch.size⟩
+        rcases hst : storeChunk E u c ⟨f.id, ch.off, ch.size⟩ with ⟨c1, ok⟩
+        rw [hst] at h1 h2 h3
+        cases ok with
+        | false => exact ⟨h1, h2, h3⟩
+        | true =>
+          simp only []
+          have := ih (nr + ch.size) c1
+          exact ⟨fun h => this.1 (h1 h), fun h => this.2.1 (h2 h), fun k h => this.2.2 k (h3 k h)⟩
+    · simp only [hlt, if_false]; exact ⟨id, id, fun _ h => h⟩
+
+/-- A successful walk over a file leaves every chunk of it in the cache. -/
+theorem cacheFileLoop_all {content : Nat → Bytes} {E : Env} {u : Under} {f : FileInfo} (hf : WF content f) :
+    ∀ (fuel nr : Nat) (c : Cache), NotInside f.table nr →
+      (∀ ch ∈ f.table, ch.off < nr → c ⟨f.id, ch.off, ch.size⟩ ≠ none) →
+      (cacheFileLoop E u f fuel nr c).2 = true → AllCached f (cacheFileLoop E u f fuel nr c).1 := by
+  intro fuel
+  induction fuel with
+  | zero => intro nr c _ _ h; simp [cacheFileLoop] at h
+  | succ fuel ih =>
+    intro nr c hni hdone hok
+    unfold cacheFileLoop at hok ⊢
+    have hl := lookup_spec f.variant hf.contig nr
+    have hsz : f.size = total f.table := by rw [hf.size, hf.cover]
+    have hfin : total f.table ≤ nr → AllCached f c := by
+      intro hge ch hch
+      have := contig_mem_bounds hf.contig ch hch
+      exact hdone ch hch (by omega)
+    by_cases hlt : nr < f.size
+    · simp only [hlt, if_true] at hok ⊢
+      cases hlk : chunkEntryForOffset f.variant f.table nr with
+      | none =>
+        simp only []
+        by_cases hx : nr < total f.table
+        · obtain ⟨c0, hc0, _⟩ := hl.1 hx; rw [hlk] at hc0; cases hc0
+        · exact hfin (by omega)
+      | some ch =>
+        rw [hlk] at hok
+        simp only [] at hok ⊢
+        have hch : ch ∈ f.table ∧ ch.off ≤ nr ∧ nr < ch.off + ch.size := by
+          obtain ⟨c0, hc0, hmem, hb1, hb2⟩ := hl.1 (by omega)
+          rw [hlk] at hc0; cases hc0; exact ⟨hmem, hb1, hb2⟩
+        obtain ⟨hmem, hb1, hb2⟩ := hch
+        have hoff : ch.off = nr := by
+          have := hni ch hmem; omega
+        have h3 := storeChunk_keeps (E := E) (u := u) c ⟨f.id, ch.off, ch.size⟩
+        have h4 := storeChunk_stores (E := E) (u := u) c ⟨f.id, ch.off, ch.size⟩
+        rcases hst : storeChunk E u c ⟨f.id, ch.off, ch.size⟩ with ⟨c1, ok⟩
+        rw [hst] at h3 h4 hok
+        cases ok with
+        | false => simp at hok
+        | true =>
+          simp only [] at hok ⊢
+          apply ih (nr + ch.size) c1
+          · intro c' hc'
+            rw [← hoff]
+            exact contig_end_not_inside hf.contig ch c' hmem hc'
+          · intro ch' hch' hlt'
+            by_cases hbefore : ch'.off < nr
+            · exact h3 _ (hdone ch' hch' hbefore)
+            · have hb' := contig_mem_bounds hf.contig ch' hch'
+              have : ch' = ch := contig_unique hf.contig ch'.off ch ch' hmem hch' (by omega) (by omega)
+                (Nat.le_refl _) (by omega)
+              subst this
+              exact h4 rfl
+          · exact hok
+    · simp only [hlt, if_false]
+      exact hfin (by omega)
+
+theorem cacheFile_all {content : Nat → Bytes} {E : Env} {u : Under} {f : FileInfo} (hf : WF content f)
+    (c : Cache) (hok : (cacheFile E u f c).2 = true) : AllCached f (cacheFile E u f c).1 := by
+  unfold cacheFile at *
+  apply cacheFileLoop_all hf
+  · intro ch _ h; omega
+  · intro ch _ h; omega
+  · exact hok
+
+theorem cacheFiltered_inv {content : Nat → Bytes} {E : Env} {u : Under} (hu : Honest content E u)
+    (filter : Nat → Bool) :
+    ∀ (fs : List FileInfo) (c : Cache),
+      (CacheOK content c → CacheOK content (cacheFiltered E u filter fs c).1) ∧
+      (CacheExact content c → CacheExact content (cacheFiltered E u filter fs c).1) ∧
+      (∀ k, c k ≠ none → (cacheFiltered E u filter fs c).1 k ≠ none) := by
+  intro fs
+  induction fs with
+  | nil => intro c; exact ⟨id, id, fun _ h => h⟩
+  | cons f fs ih =>
+    intro c
+    unfold cacheFiltered
+    by_cases hfl : filter f.firstOff = true
+    · simp only [hfl, if_true]
+      have h := cacheFileLoop_inv hu f (f.size + 1) 0 c
+      unfold cacheFile
+      rcases hst : cacheFileLoop E u f (f.size + 1) 0 c with ⟨c1, ok⟩
+      rw [hst] at h
+      cases ok with
+      | false => exact h
+      | true =>
+        simp only []
+        have := ih c1
+        exact ⟨fun x => this.1 (h.1 x), fun x => this.2.1 (h.2.1 x), fun k x => this.2.2 k (h.2.2 k x)⟩
+    · simp only [hfl]
+      exact ih c
+
+/-- After a successful `cacheWithReader` every chunk of every file that passes the filter is cached. -/
+theorem cacheFiltered_all {content : Nat → Bytes} {E : Env} {u : Under} (hu : Honest content E u)
+    (filter : Nat → Bool) :
+    ∀ (fs : List FileInfo) (c : Cache), (∀ f ∈ fs, WF content f) →
+      (cacheFiltered E u filter fs c).2 = true →
+      ∀ f ∈ fs, filter f.firstOff = true → AllCached f (cacheFiltered E u filter fs c).1 := by
+  intro fs
+  induction fs with
+  | nil => intro c _ _ f hf; cases hf
+  | cons g gs ih =>
+    intro c hwf hok f hfm hflt
+    unfold cacheFiltered at hok ⊢
+    by_cases hfl : filter g.firstOff = true
+    · simp only [hfl, if_true] at hok ⊢
+      have hall := cacheFile_all (E := E) (u := u) (hwf g (by simp)) c
+      rcases hst : cacheFile E u g c with ⟨c1, ok⟩
+      rw [hst] at hok hall
+      cases ok with
+      | false => simp at hok
+      | true =>
+        simp only [] at hok ⊢
+        rcases List.mem_cons.mp hfm with heq | hin
+        · subst heq
+          intro ch hch
+          exact (cacheFiltered_inv hu filter gs c1).2.2 _ (hall rfl ch hch)
+        · exact ih c1 (fun x hx => hwf x (by simp [hx])) hok f hin hflt
+    · simp only [hfl] at hok ⊢
+      rcases List.mem_cons.mp hfm with heq | hin
+      · subst heq; exact absurd hflt hfl
+      · exact ih c (fun x hx => hwf x (by simp [hx])) hok f hin hflt
+
+/-! ### histories -/
+
+/-- What a history may contain: reads of well-formed files, stores; everything from below honest. -/
+def OpOK (content : Nat → Bytes) (E : Env) : Op → Prop
+  | .read f _ _ u => WF content f ∧ Honest content E u
+  | .store _ u => Honest content E u
+  | .cacheFiles _ _ u => Honest content E u
+  | .evict _ => True
+  | .truncate _ _ => True
+
+theorem step_ok {content : Nat → Bytes} {E : Env} (c : Cache) (op : Op) (hop : OpOK content E op)
+    (hc : CacheOK content c) : CacheOK content (step E c op).1 := by
+  cases op with
+  | read f off n u => exact (fileReadAt_exact hop.1 hop.2 c hc off n).1
+  | store id u => exact storeChunk_ok hop c id hc
+  | cacheFiles fl fs u => exact (cacheFiltered_inv hop fl fs c).1 hc
+  | evict id => exact cacheOK_evict hc id
+  | truncate id k => exact cacheOK_truncate hc id k
+
+theorem runOps_ok {content : Nat → Bytes} {E : Env} :
+    ∀ (ops : List Op) (c : Cache), (∀ op ∈ ops, OpOK content E op) → CacheOK content c →
+      CacheOK content (runOps E ops c) := by
+  intro ops
+  induction ops with
+  | nil => intro c _ h; exact h
+  | cons op ops ih =>
+    intro c hops hc
+    unfold runOps
+    exact ih _ (fun o ho => hops o (by simp [ho])) (step_ok c op (hops op (by simp)) hc)
+
+/-- histories without truncation keep entries exact -/
+def NoTrunc : Op → Prop
+  | .truncate _ _ => False
+  | _ => True
+
+theorem step_exact {content : Nat → Bytes} {E : Env} (c : Cache) (op : Op) (hop : OpOK content E op)
+    (hnt : NoTrunc op) (hc : CacheExact content c) : CacheExact content (step E c op).1 := by
+  cases op with
+  | read f off n u =>
+    -- the read loop only changes the cache through fetchChunk
+    show CacheExact content (fileReadAt E u f c off n).1
+    unfold fileReadAt
+    have : ∀ (fuel : Nat) (c : Cache) (acc : Bytes), CacheExact content c →
+        CacheExact content (readLoop E u f off n fuel c acc).1 := by
+      intro fuel
+      induction fuel with
+      | zero => intro c acc h; exact h
+      | succ fuel ih =>
+        intro c acc h
+        unfold readLoop
+        simp only []
+        split
+        · split
+          · exact h
+          · rename_i ch _
+            split
+            · exact h
+            · have hfe := fetchChunk_exact hop.2 c ⟨f.id, ch.off, ch.size⟩ h
+              split
+              · exact ih _ _ h
+              · split
+                · rename_i c1 heq; rw [heq] at hfe; exact hfe
+                · rename_i c1 b heq; rw [heq] at hfe
+                  split
+                  · exact ih _ _ hfe
+                  · split
+                    · exact hfe
+                    · exact ih _ _ hfe
+        · exact h
+    exact this _ _ _ hc
+  | store id u => exact storeChunk_exact hop c id hc
+  | cacheFiles fl fs u => exact (cacheFiltered_inv hop fl fs c).2.1 hc
+  | evict id => exact cacheExact_evict hc id
+  | truncate id k => exact absurd hnt (by simp [NoTrunc])
+
+theorem runOps_exact {content : Nat → Bytes} {E : Env} :
+    ∀ (ops : List Op) (c : Cache), (∀ op ∈ ops, OpOK content E op ∧ NoTrunc op) → CacheExact content c →
+      CacheExact content (runOps E ops c) := by
+  intro ops
+  induction ops with
+  | nil => intro c _ h; exact h
+  | cons op ops ih =>
+    intro c hops hc
+    unfold runOps
+    exact ih _ (fun o ho => hops o (by simp [ho]))
+      (step_exact c op (hops op (by simp)).1 (hops op (by simp)).2 hc)
 
 end SV.LazyRead
